@@ -17,12 +17,13 @@
 //	(i)  total == 0 (fraction 0/0);
 //	(ii) an excluded character that is itself matching: the numerator may (reading 0) or may
 //	     not (reading 1) count the excluded characters; ONE reading must explain a whole call;
-//	(iii) a decimal (non dyadic) cutoff within 1e-9 of the fraction: the tie is a property of the
-//	     binary representation of the cutoff, not of the rule.
+//	(iii) a non dyadic cutoff with |matching - cutoff x total| <= 1e-14 x total (exact arithmetic): the
+//	     implementation multiplies in float64, the rounding of that product decides.
 package main
 
 import (
 	"math"
+	"math/big"
 )
 
 type verdict int8
@@ -173,17 +174,16 @@ func decide(m, t int, cutoff float64) (v verdict, tie bool) {
 		}
 		return vKeep, false
 	}
-	lhs, rhs := float64(m), cutoff*float64(t)
-	d := lhs - rhs
-	if math.Abs(d) > 1e-9*float64(t) {
-		if d > 0 {
-			return vRemove, false
-		}
-		return vKeep, false
-	}
-	if isDyadic(cutoff) && t < 1<<30 {
-		if lhs >= rhs {
-			return vRemove, lhs == rhs
+	// exact: the float64 cutoff is a rational number
+	rc := new(big.Rat).SetFloat64(cutoff)
+	d := new(big.Rat).Sub(new(big.Rat).SetInt64(int64(m)), rc.Mul(rc, new(big.Rat).SetInt64(int64(t))))
+	sign := d.Sign()
+	zone := new(big.Rat).SetFloat64(1e-14 * float64(t))
+	if d.Abs(d).Cmp(zone) > 0 || (isDyadic(cutoff) && t < 1<<30) {
+		// outside the rounding zone of an implementation that multiplies in float64 (and inside it for dyadic
+		// cutoffs, whose product is exact)
+		if sign >= 0 {
+			return vRemove, sign == 0
 		}
 		return vKeep, false
 	}
